@@ -13,10 +13,11 @@ import SudsModel.Driver.C05
 import SudsModel.Driver.C18
 import SudsModel.Driver.C07
 import SudsModel.Driver.C01
+import SudsModel.Driver.C12
 namespace Suds.Driver
 open Lean
 
-def handlers : List Handler := [C04.handle, C08.handle, C06.handle, C19.handle, C09.handle, C10.handle, C14.handle, C16.handle, C17.handle, C15.handle, C11.handle, C05.handle, C18.handle, C07.handle, C01.handle]
+def handlers : List Handler := [C04.handle, C08.handle, C06.handle, C19.handle, C09.handle, C10.handle, C14.handle, C16.handle, C17.handle, C15.handle, C11.handle, C05.handle, C18.handle, C07.handle, C01.handle, C12.handle]
 
 def dispatch (op : String) (j : Json) : Option Json :=
   handlers.findSome? fun h => h op j
